@@ -70,3 +70,41 @@ func VH_C01_muxTellPassThrough() bool {
 	vAssert(vEqBytes(p1, o1) && vEqBytes(p2, o2), "tell-modified-the-senders-buffer")
 	return true
 }
+
+func vServeU(ms *muxedSwarm[vAddr, uint64, struct{}], log *[]vGotM) {
+	go func() {
+		for i := 0; i < 2; i++ {
+			ms.Receive(context.Background(), func(m p2p.Message[vAddr]) {
+				*log = append(*log, vGotM{src: m.Src, dst: m.Dst, payload: append([]byte{}, m.Payload...)})
+			})
+		}
+	}()
+}
+
+// verif: sched=coop unwind=24 cover=to-c1,to-c2,to-none bounds="varint mux with two open channels c1 != c2 (any uint64); a frame muxed for a symbolic channel c with a 0..2 byte payload through the real handleRecv reaches exactly the swarm opened for c, or nobody"
+func VH_C15_dispatchIsolationVarint() bool {
+	var sent []vSentM
+	mc := &muxCore[vAddr, uint64, struct{}]{swarm: vInnerRec{sent: &sent}, muxFunc: varintMuxFunc, demuxFunc: varintDemuxFunc}
+	c1, c2 := vU64(), vU64()
+	vAssume(c1 != c2)
+	m1, m2 := mc.open(c1), mc.open(c2)
+	var g1, g2 []vGotM
+	vServeU(m1, &g1)
+	vServeU(m2, &g2)
+	c := vU64()
+	payload := vBytes(2)
+	frame := p2p.VecBytes(nil, varintMuxFunc(c, p2p.IOVec{payload}))
+	err := mc.handleRecv(context.Background(), p2p.Message[vAddr]{Src: 5, Dst: 6, Payload: frame})
+	switch {
+	case c == c1:
+		vCover("to-c1")
+		vAssert(err == nil && len(g1) == 1 && len(g2) == 0 && vEqBytes(g1[0].payload, payload), "frame-for-c1-not-delivered-only-to-c1")
+	case c == c2:
+		vCover("to-c2")
+		vAssert(err == nil && len(g2) == 1 && len(g1) == 0 && vEqBytes(g2[0].payload, payload), "frame-for-c2-not-delivered-only-to-c2")
+	default:
+		vCover("to-none")
+		vAssert(err != nil && len(g1) == 0 && len(g2) == 0, "frame-for-unknown-channel-delivered")
+	}
+	return true
+}
